@@ -227,6 +227,17 @@ def graph_cases():
         g("diamond_ok", {"a.mro": d("a", ["b.mro", "c.mro"]), "b.mro": d("b", ["d.mro"]), "c.mro": d("c", ["d.mro"]), "d.mro": d("d", [])}),
         g("duplicate_decl", {"a.mro": d("a", ["b.mro"]), "b.mro": d("a", [])}),
     ]
+    # a ladder of diamonds: a_i includes b_i and c_i, which both include a_(i+1); an error in the
+    # deepest file has 2^14 ways to have been included
+    m = 14
+    lad = {}
+    for i in range(m):
+        nxt = ["a%d.mro" % (i + 1)] if i + 1 < m else []
+        lad["b%d.mro" % i] = d("b%d" % i, nxt)
+        lad["c%d.mro" % i] = d("c%d" % i, nxt)
+        lad["a%d.mro" % i] = d("a%d" % i, ["b%d.mro" % i, "c%d.mro" % i])
+    lad["a%d.mro" % (m - 1)] += "\nstage S(\n    in  nosuchtype x,\n    src py \"s\",\n)\n"
+    out.append(g("diamond_ladder_error", lad, "a0.mro"))
     n = 150
     chain = {"f%d.mro" % i: d("c%d" % i, ["f%d.mro" % (i + 1)] if i + 1 < n else []) for i in range(n)}
     out.append(g("chain150", chain, "f0.mro"))
